@@ -159,6 +159,36 @@ def run_cases(prop, cases, jobs, case_timeout, hang_timeout):
     return [results.get(i, {"i": i, "status": "missing"}) for i in range(len(cases))]
 
 
+def _anchor_coverage(prop, seen):
+    """Reach of the monitored executions inside the files the property is anchored in (sys.monitoring LINE events, see mv/linecov.py)."""
+    from . import linecov
+    repo = os.path.realpath(os.environ.get("MOUETTE_REPO", "/repo"))
+    files = []
+    try:
+        with open(os.path.join(HERE, "properties.jsonl")) as f:
+            for line in f:
+                d = json.loads(line)
+                if d.get("id") == prop:
+                    files = list(d.get("anchors", {}).get("files", []))
+    except (OSError, ValueError):
+        pass
+    if not seen:
+        return {"recorded": False}
+    out = {"recorded": True, "mouette_files_entered": len(seen), "mouette_lines_executed": sum(len(v) for v in seen.values()), "anchors": []}
+    for fpath in files:
+        rel = fpath[len("mouette/"):] if fpath.startswith("mouette/") else fpath
+        sm = linecov.summarise(repo, rel, seen.get(rel, set()))
+        if sm is not None:
+            out["anchors"].append(sm)
+    try:
+        os.makedirs(os.path.join(HERE, "covdata"), exist_ok=True)
+        with open(os.path.join(HERE, "covdata", prop + ".json"), "w") as f:
+            json.dump({k: sorted(v) for k, v in sorted(seen.items())}, f)
+    except OSError:
+        pass
+    return out
+
+
 def main(argv=None):
     argv = list(sys.argv[1:] if argv is None else argv)
     replay = _arg(argv, "--replay")
@@ -207,9 +237,12 @@ def main(argv=None):
     statuses = {}
     violations = []  # (case_index, violation dict)
     inconclusive = []
+    linecov_seen = {}
     for rec in recs:
         st = rec.get("status", "missing")
         statuses[st] = statuses.get(st, 0) + 1
+        for fn, lns in (rec.get("cov") or {}).items():
+            linecov_seen.setdefault(fn, set()).update(lns)
         for k, v in rec.get("counters", {}).items():
             counters[k] = counters.get(k, 0) + v
         for k, v in rec.get("classes", {}).items():
@@ -309,6 +342,7 @@ def main(argv=None):
     wall = time.time() - t0
     if not replay:
         rule = getattr(mod, "RULE", "")
+        anchor_cov = _anchor_coverage(prop, linecov_seen)
         evidence = {
             "property_id": prop, "tier": tier, "seed": seed, "level": "exploration",
             "coverage": {
@@ -324,6 +358,7 @@ def main(argv=None):
                 "stale_findings": stale,
                 "hash_seed": os.environ.get("PYTHONHASHSEED"),
                 "repo": os.path.realpath(os.environ.get("MOUETTE_REPO", "/repo")),
+                "anchor_line_coverage": anchor_cov,
                 "exhaustive": bool(getattr(mod, "EXHAUSTIVE", False)),
                 "verdict": verdict,
                 "inconclusive_reasons": (inconclusive + missing)[:20],
